@@ -1,6 +1,32 @@
 HOOK_COMMITS = []
 NOT_APPLICABLE = {}
+_GRAMMAR_NOTE = ('Bounded exploration. Trusted: the reference semantics in vlib/hints.py (hint grammar of ~25 node kinds incl. unions, literals, '
+                 'fixed/variadic tuples, sequences, sets, deques, views, mappings, counters, quasi-iterables, type[...], TypeVars, NewTypes, Annotated, '
+                 'protocols, a user generic), the controlled 32-bit sampler (random.getrandbits replaced before beartype is imported), Hypothesis as generator. '
+                 'Hint depth <= 3 quick / 5 thorough, container sizes 0..8 (12 for reachability). NumPy and other third-party hints are not covered.')
 CHECKS = {
+ 'C01': {
+  'technique': 'property-based testing: conforming objects built by construction from a hint grammar, reference-semantics oracle, all draws x 7 entry points',
+  'text': 'Hypothesis draws a hint from the shared grammar and builds a member object by construction (re-validated by an independent full-depth reference '
+          'semantics); is_bearable, die_if_unbearable, both TypeHint methods, a decorated parameter, a decorated return and an identity function must accept it '
+          'for every sampler draw in 0..len-1 plus boundary and random 32-bit draws, under generated configurations (is_random, O1/Ologn/On, verbosity, colour, violation types).',
+  'note': _GRAMMAR_NOTE,
+ },
+ 'C02': {
+  'technique': 'property-based testing: violation injection at generated paths + must_reject reference oracle; exhaustive draws 0..n-1 for sequence reachability',
+  'text': 'A violation is injected at a generated path of a conforming object; whenever the reference semantics says the violation is draw-independent '
+          '(wrong class, fixed-tuple length/position, literal, type[...], all union members, failed validator, every item violating) all entry points must reject '
+          'for every draw under is_random in {True, False}. For sequences with exactly one draw-independent defect at index i of n, some draw in 0..n-1 must reject, '
+          'and with is_random=False the object is rejected iff i == 0.',
+  'note': _GRAMMAR_NOTE,
+ },
+ 'C03': {
+  'technique': 'property-based testing: differential between the six entry points under one controlled draw + validity predicate on the raised/warned violation',
+  'text': 'For generated (hint, object, configuration, draw) including middle-zone objects whose verdict depends on the draw, the six entry points must agree; '
+          'every rejection must be exactly the class selected by violation_type / violation_door_type / violation_param_type / violation_return_type (warned, '
+          'with the call proceeding, for Warning classes), name the hint in its message and start its culprits with the object; any other exception is a violation.',
+  'note': _GRAMMAR_NOTE,
+ },
  'C17': {
   'technique': 'property-based testing: generated creation histories, fresh-process differential + validity model + algebraic laws',
   'text': 'Hypothesis generates histories of up to 6 BeartypeConf constructions plus a final one from per-option pools of valid, invalid and '
